@@ -78,6 +78,11 @@ def rand_box(rng, n, kind):
         elif kind == "narrow":
             k = 3
             w = np.exp(rng.uniform(-7, -2))
+        elif kind == "sliver":
+            # half of the variables confined to intervals far narrower than any differencing step (1e-10 .. 5e-7), the others ordinary
+            k = 3
+            if rng.random() < 0.5:
+                w = float(np.exp(rng.uniform(np.log(1e-10), np.log(5e-7))))
         elif kind == "narrow_far":
             # large-magnitude variable with a box that is narrow relative to its magnitude but far from degenerate
             k = 3
